@@ -2383,3 +2383,50 @@ for _P, _R in (("C05", "R5.15"), ("C01", "R1.14")):
         ] + [False]
 ''', "", _R, "a partial merge leaves the impossible-merge flags of the "
       "merged paths in place (D7)")
+
+# ============================================================ waves i / j
+for _P, _R in (("C05", "R5.14"), ("C07", "R7.12"), ("C01", "R1.15")):
+    M(_P, "dummy-end-break-on-foreign-set", SGL,
+      '''                    if event_set.to_frozenset().issubset(loop_event_types):
+                        end_event.update_in_event_sets(event_set.to_list())''',
+      '''                    if not event_set.to_frozenset().issubset(
+                        loop_event_types
+                    ):
+                        break
+                    end_event.update_in_event_sets(event_set.to_list())''',
+      _R, "a foreign predecessor set ends the mirroring: the joint set that "
+      "proves the fork join may never be copied (seed C05-i)")
+    T(_P, "twin-dummy-end-continue", SGL,
+      '''                    if event_set.to_frozenset().issubset(loop_event_types):
+                        end_event.update_in_event_sets(event_set.to_list())''',
+      '''                    if not event_set.to_frozenset().issubset(
+                        loop_event_types
+                    ):
+                        continue
+                    end_event.update_in_event_sets(event_set.to_list())''',
+      "guard clause with continue")
+M("C04", "model-file-strips-whitespace", EV,
+  '''    eventType: str
+    count: int
+''', '''    model_config = {"str_strip_whitespace": True}
+
+    eventType: str
+    count: int
+''', "R4.2", "event types are saved / reloaded stripped (seed C04-i)")
+M("C14", "loader-drops-forward-links", P2P,
+  "        out_data.append(transform_dict_into_pv_event(event, mapping_config))",
+  '''        pv_event = transform_dict_into_pv_event(event, mapping_config)
+        pv_event["previousEventIds"] = [
+            i for i in pv_event["previousEventIds"] if i in seen
+        ]
+        seen.add(pv_event["eventId"])
+        out_data.append(pv_event)''', "R14.7",
+  "links to events listed later in the file are dropped (seed C14-i)")
+T("C14", "twin-loader-temp", P2P,
+  "        out_data.append(transform_dict_into_pv_event(event, mapping_config))",
+  '''        pv_event = transform_dict_into_pv_event(event, mapping_config)
+        out_data.append(pv_event)''', "through a temporary")
+M("C04", "no-dummy-start-for-known-model", DI,
+  "        add_dummy_start=add_dummy_start,\n    )\n    return update_and_create_events_from_graph_solutions(",
+  "        add_dummy_start=add_dummy_start and not events,\n    )\n    return update_and_create_events_from_graph_solutions(", "R4.7",
+  "jobs learned on top of a loaded model get no dummy start link (seed C04-j)")
